@@ -175,7 +175,8 @@ func checkC01(ctx *core.Ctx, rep *core.Report) {
 		cfgByName[c.Name] = c
 	}
 	xstate.Explore(ctx, rep, xstate.Options{Seeds: sel, Depth: 1}, func(st *xstate.State) {
-		use := d1regs
+		// depth-1 states: the global registry and one of the four filtered ones, dealt by state key
+		use := []NamedReg{d1regs[0], d1regs[1+int(st.Hash>>8)%(len(d1regs)-1)]}
 		if len(st.Path) == 0 {
 			use = regs
 		}
@@ -243,13 +244,27 @@ func judgedHoles(rep *core.Report) {
 
 type mockCert struct{ st lint.LintStatus }
 
-func (m mockCert) CheckApplies(*x509.Certificate) bool { return true }
+func (m mockCert) CheckApplies(*x509.Certificate) bool {
+	if m.st == 98 {
+		panic("verif mock panic in CheckApplies")
+	}
+	return true
+}
 func (m mockCert) Execute(*x509.Certificate) *lint.LintResult {
 	if m.st == 99 {
 		panic("verif mock panic")
 	}
 	return &lint.LintResult{Status: m.st, Details: "mock"}
 }
+
+// mockCertCfg is Configurable and panics while handing out its configuration target.
+type mockCertCfg struct{ mockCert }
+
+func (m mockCertCfg) Configure() interface{} { panic("verif mock panic in Configure") }
+
+// panicPhases: where in the life-cycle of a certificate lint the mock panics. "No panic reaches the
+// caller" holds for each of them on a certificate (the deferred recover wraps the whole life-cycle).
+var panicPhases = []int{99 /* Execute */, 98 /* CheckApplies */, 97 /* constructor */, 96 /* Configure */}
 
 type mockCRL struct{ st lint.LintStatus }
 
@@ -265,7 +280,7 @@ func (m mockOCSP) Execute(*ocsp.Response) *lint.LintResult {
 	return &lint.LintResult{Status: m.st, Details: "mock"}
 }
 
-var mocksRegistered bool
+var mocksRegistered, mockCtorPanics bool
 
 func mockName(kind string, st int) string { return fmt.Sprintf("n_zz_verifmock_%s_%d", kind, st) }
 
@@ -285,6 +300,17 @@ func registerMocks() {
 	}
 	lint.RegisterCertificateLint(&lint.CertificateLint{LintMetadata: lint.LintMetadata{Name: mockName("cert", 99), Description: "mock", Source: lint.Community},
 		Lint: func() lint.CertificateLintInterface { return mockCert{99} }})
+	lint.RegisterCertificateLint(&lint.CertificateLint{LintMetadata: lint.LintMetadata{Name: mockName("cert", 98), Description: "mock", Source: lint.Community},
+		Lint: func() lint.CertificateLintInterface { return mockCert{98} }})
+	lint.RegisterCertificateLint(&lint.CertificateLint{LintMetadata: lint.LintMetadata{Name: mockName("cert", 97), Description: "mock", Source: lint.Community},
+		Lint: func() lint.CertificateLintInterface {
+			if mockCtorPanics { // registration and Filter call the constructor themselves: it panics only while linting
+				panic("verif mock panic in constructor")
+			}
+			return mockCert{lint.Pass}
+		}})
+	lint.RegisterCertificateLint(&lint.CertificateLint{LintMetadata: lint.LintMetadata{Name: mockName("cert", 96), Description: "mock", Source: lint.Community},
+		Lint: func() lint.CertificateLintInterface { return mockCertCfg{mockCert{lint.Pass}} }})
 }
 
 // c01Mocks: all 2^7 subsets of statuses × 3 kinds (plus the panicking
@@ -311,7 +337,8 @@ func c01Mocks(ctx *core.Ctx, rep *core.Report, sel []seeds.Seed) {
 		}
 		maxMask := 1 << 7
 		for mask := 0; mask < maxMask; mask++ {
-			for _, withPanic := range []bool{false, true} {
+			for _, phase := range append([]int{0}, panicPhases...) {
+				withPanic := phase != 0
 				if withPanic && k != seeds.Cert {
 					continue
 				}
@@ -322,7 +349,7 @@ func c01Mocks(ctx *core.Ctx, rep *core.Report, sel []seeds.Seed) {
 					}
 				}
 				if withPanic {
-					names = append(names, mockName("cert", 99))
+					names = append(names, mockName("cert", phase))
 				}
 				if len(names) == 0 {
 					continue
@@ -332,7 +359,9 @@ func c01Mocks(ctx *core.Ctx, rep *core.Report, sel []seeds.Seed) {
 					rep.InternalError("mock filter: %v", err)
 					return
 				}
+				mockCtorPanics = true
 				rs, p := zl.Lint(o, reg)
+				mockCtorPanics = false
 				rep.Inc("mock_mixes")
 				rep.Inc("validated")
 				bad := rsInvariant(o, reg, rs, p)
@@ -344,15 +373,15 @@ func c01Mocks(ctx *core.Ctx, rep *core.Report, sel []seeds.Seed) {
 						}
 					}
 					if withPanic {
-						if r := rs.Results[mockName("cert", 99)]; r == nil || r.Status != lint.Fatal {
-							bad = append(bad, [2]string{"C01|cert|panic_not_fatal", "panicking certificate lint did not yield a fatal result"})
+						if r := rs.Results[mockName("cert", phase)]; r == nil || r.Status != lint.Fatal {
+							bad = append(bad, [2]string{"C01|cert|panic_not_fatal", fmt.Sprintf("certificate lint panicking in phase %d (99 Execute, 98 CheckApplies, 97 constructor, 96 Configure) did not yield a fatal result", phase)})
 						}
 					}
 				}
 				sort.Strings(names)
 				for _, b := range bad {
 					rep.Violate(b[0], b[1]+" [mock mix "+strings.Join(names, ",")+"]", map[string]interface{}{
-						"op": "mock_mix", "kind": k.String(), "mask": mask, "panic": withPanic, "seed": sd[k].Name})
+						"op": "mock_mix", "kind": k.String(), "mask": mask, "panic_phase": phase, "seed": sd[k].Name})
 				}
 			}
 		}
